@@ -165,7 +165,17 @@ fn hostile_piece(rng: &mut Rng) -> Vec<u8> {
             }
             v
         }
-        4 => b"    1:2:void foo():\xb2\xb3 -> a".to_vec(),
+        4 => rng
+            .pick(&[
+                b"    1:2:void foo():\xb2\xb3 -> a".as_slice(),
+                "    \u{b2}:3:void m() -> a".as_bytes(),
+                "    1\u{bd}:3:void m() -> a".as_bytes(),
+                "    \u{2460}x f -> a".as_bytes(),
+                "    1:\u{663}:void m() -> a".as_bytes(),
+                "    void m():1\u{b2} -> a".as_bytes(),
+                "    1:2:void m():3:\u{2460}\u{2461}\u{2462} -> a".as_bytes(),
+            ])
+            .to_vec(),
         5 => format!("    {}:5:void foo() -> a", "9".repeat(30)).into_bytes(),
         6 => b"a.B -> \xff\xfe:".to_vec(),
         7 => {
